@@ -56,7 +56,12 @@ P = {
                                                T: ("CfgsRSB", dict(MaxCodes=2, MaxAT=4, MaxRT=3, MaxNow=0, MaxDev=1, Depth=7))},
                            genx={Q: ("CfgsRSB", 4), T: ("CfgsRSB", 5)},
                            sim={Q: ("CfgsRSB", 300, 8), T: ("CfgsRSB", 4000, 12)},
-                           simb=dict(MaxCodes=2, MaxAT=8, MaxRT=6, MaxNow=0, MaxDev=2))]),
+                           simb=dict(MaxCodes=2, MaxAT=8, MaxRT=6, MaxNow=0, MaxDev=2)),
+                      dict(family="C05c", mc={Q: ("CfgsRS", dict(MaxCodes=0, MaxAT=4, MaxRT=4, MaxNow=0, MaxDev=1, Depth=7)),
+                                               T: ("CfgsRSB", dict(MaxCodes=0, MaxAT=5, MaxRT=5, MaxNow=0, MaxDev=1, Depth=9))},
+                           genx={Q: ("CfgsRS", 6), T: ("CfgsRSB", 8)},
+                           sim={Q: ("CfgsRS", 100, 10), T: ("CfgsRSB", 1500, 14)},
+                           simb=dict(MaxCodes=0, MaxAT=8, MaxRT=8, MaxNow=0, MaxDev=1))]),
     "C07": dict(family="C07", mc={Q: ("CfgsExpiry", dict(MaxCodes=1, MaxAT=3, MaxRT=2, MaxNow=4, Depth=7)),
                                   T: ("CfgsExpiry", dict(MaxCodes=2, MaxAT=4, MaxRT=3, MaxNow=5, Depth=9))},
                 genx={Q: ("CfgsExpiry", 4), T: ("CfgsExpiry", 5)},
@@ -64,7 +69,7 @@ P = {
                 simb=dict(MaxCodes=3, MaxAT=10, MaxRT=8, MaxNow=8)),
     "C08": dict(family="C08", mc={Q: ("CfgsOne", dict(MaxCodes=1, MaxAT=3, MaxRT=2, MaxNow=1, Depth=6)),
                                   T: ("CfgsStrategies", dict(MaxCodes=2, MaxAT=5, MaxRT=3, MaxNow=2, Depth=7))},
-                genx={Q: ("CfgsOne", 3), T: ("CfgsOne", 4)},
+                genx={Q: ("CfgsStrategies", 3), T: ("CfgsStrategies", 4)},
                 sim={Q: ("CfgsStrategies", 400, 12), T: ("CfgsStrategies", 6000, 20)},
                 simb=dict(MaxCodes=3, MaxAT=10, MaxRT=8, MaxNow=4),
                 more=[dict(family="C08b", mc={Q: ("CfgsExpiry", dict(MaxCodes=0, MaxAT=3, MaxRT=3, MaxNow=4, Depth=7)),
